@@ -98,6 +98,8 @@ def run(cfg, all_checks, tier, seed, repo, replay_dir):
             except Exception:
                 res = None
             os.remove(out)
+        if os.path.exists(out + '.distinct'):
+            os.remove(out + '.distinct')
         reports = asan_summary(logp) if mode == 'asan' else []
         return job, res, None, reports
 
